@@ -170,6 +170,72 @@ def grammar_part(rep, tier):
              "exists accepted stream in which a content token is consumed by a leaf under Suppress?", bounds="length<=%d" % N)
     s.pop()
     rep.paths += len(E.defs)
+    reference_inclusion(rep, tier, G, parser)
+
+
+def reference_inclusion(rep, tier, G, parser):
+    """exists a token string (<= NR tokens) that the LIVE grammar accepts and the independent reference grammar does
+    not derive?  Both sides are z3 relations over the same symbolic stream; the reference (harness/refsym.py) is the
+    context-free dialect of DOCS.md, so a model is an input of which the parser "understood" something the dialect
+    does not contain (a token consumed and dropped, a clause in a place where it means nothing)."""
+    from harness import refsym
+    NR = int(os.environ.get("VERIF_C07_NR", 0)) or (12 if tier == "quick" else 17)
+    budget = 300 if tier == "quick" else 3000
+    tok, length = gram.mk_stream(NR, "r")
+    t0 = time.time()
+    try:
+        E = gram.Enc(G, NR, tok, length, "q", mode="peg", sep_fixed=1)
+        acc = E.accepts()
+    except gram.Unsupported as ex:
+        rep.harness_error("grammar uses a construct the encoder does not support: %s" % ex)
+        return
+    R = refsym.Sym(G.V, NR, tok, length)
+    racc = R.accepts()
+    t_enc = time.time() - t0
+    s = gcommon.new_solver(budget)
+    s.add(E.defs)
+    s.add(gram.stream_constraints(G, NR, tok, length))
+    s.add(E.default_domain())
+    s.add(E.include_domain())
+    rep.functions.add("harness/refsym.py RULES (reference grammar, %d rule instances encoded)" % R.nodes)
+    # the symbolic reference against the concrete recogniser, on solver-chosen streams from both sides
+    nval = 0
+    for side, cond in (("derives", racc), ("does not derive", z3.And(z3.Not(racc), length >= 3))):
+        s.push(); s.add(cond)
+        for _ in range(8 if tier == "quick" else 25):
+            if str(s.check()) != "sat":
+                break
+            m = s.model()
+            toks = E.tokens(m)
+            if refsym.concrete(toks) != (side == "derives"):
+                rep.harness_error("symbolic reference grammar says %r %s, the concrete recogniser disagrees" % (" ".join(toks), side))
+            nval += 1
+            L = len(toks)
+            s.add(z3.Or([tok[k] != m.eval(tok[k], model_completion=True) for k in range(L)] + [length != L]))
+        s.pop()
+    rep.extra["reference_validation_cases"] = nval
+    s.push()
+    s.add(acc, z3.Not(racc))
+    r, m, dt = gcommon.check(s, rep, "reference-inclusion", NR)
+    verdict = {"unsat": "confirmed", "sat": "counterexample"}.get(r, "inconclusive(timeout)")
+    if r == "sat":
+        toks, text = E.tokens(m), E.render(m)
+        try:
+            parser.Module.parseString(text); accepted = True
+        except Exception:
+            accepted = False
+        rep.extra["replayed"] = rep.extra.get("replayed", 0) + 1
+        if accepted and not refsym.concrete(toks):
+            rep.violation("parser accepts %r, which is not a sequence of declarations of the dialect (reference grammar rejects it)" % text,
+                          dict(kind="c07-reference", text=text, tokens=toks))
+        else:
+            rep.harness_error("reference-inclusion model %r did not reproduce (real parser accepts=%s, concrete reference accepts=%s)" % (text, accepted, refsym.concrete(toks)))
+            verdict = "error"
+    rep.cond("c07.reference_inclusion", "z3: live grammar encoding vs reference grammar encoding", verdict, dt + t_enc,
+             "exists a token string accepted by the live grammar that the reference grammar does not derive?", bounds="all token strings of length<=%d over %d spellings" % (NR, len(G.V)))
+    s.pop()
+    rep.paths += len(E.defs)
+    rep.bounds["reference_inclusion"] = {"max_tokens": NR, "layout": "single space between tokens", "identifier rule": "relaxed (reserved words may be identifiers)"}
 
 
 def run(tier):
@@ -191,6 +257,18 @@ def replay(payload):
     import gtwrap.interface_parser as parser
     kind = payload.get("kind")
     text = payload.get("text", "")
+    if kind == "c07-reference":
+        from harness import refsym
+        try:
+            parser.Module.parseString(text); accepted = True
+        except Exception as ex:
+            accepted = False
+        ref = refsym.concrete(payload.get("tokens", []))
+        print("real parser %s %r; reference grammar %s it" % ("ACCEPTS" if accepted else "rejects", text, "derives" if ref else "does not derive"))
+        if accepted and not ref:
+            print("VIOLATION property=C07 replay=(replayed)")
+            return 1
+        return 0
     if kind in ("c07-consumption", "c07-balance"):
         try:
             parser.Module.parseString(text)
